@@ -3,6 +3,7 @@ import ZenonVerif.Model.Pow
 import ZenonVerif.Model.Rpc
 import ZenonVerif.Model.Pool
 import ZenonVerif.Model.Rewards
+import ZenonVerif.Model.RewardEpoch
 import Driver.Core
 /-
 Driver handler of the `translated` stream: every line carries the answer of the REAL Go function; the driver evaluates
@@ -69,7 +70,10 @@ def pureTranslated : List String → Option String
                  (toString (Rewards.weightedSentinel reg revoke s e)))
   | ["tr-wamount", a, t] => do
       let a ← a.toInt?; let t ← t.toInt?
-      pure (resStr (fun (v : Int) => toString v) (Translated.getWeightedStakeAmount a (i64 t)))
+      if a < 0 then none
+      let m := match RewardEpoch.stakeWeightedAmount Gen.StakeTimeUnitSec a.toNat (i64 t).toInt with
+        | none => "panic" | some v => toString v
+      pure (both (resStr (fun (v : Int) => toString v) (Translated.getWeightedStakeAmount a (i64 t))) m)
   | _ => none
 
 end ZV.Driver
